@@ -164,6 +164,26 @@ pub fn run(ctx: &mut Ctx) {
             ctx.call("ros2_pp", tagged(json!({"op": "ros2_pp", "supply": sup, "lim": 30, "own": o1, "others": o2})), call_ros2);
         }
     }
+    if wants(1) {
+        // enumerated timers whose later instances are cheaper than the first, several instances per busy window
+        // (offsets > 0): the interference window prefix + response - least_wcet + 1 depends on the offset
+        for sup in [json!({"k": "dedicated"}), json!({"k": "periodic", "Q": 3, "P": 4}), json!({"k": "constrained", "Q": 2, "D": 2, "P": 3})] {
+            for frames in [vec![5u64, 2], vec![4, 1], vec![3, 1, 1], vec![6, 2, 2]] {
+                for (t_own, c_hp, t_hp) in [(13u64, 4u64, 9u64), (9, 2, 7), (11, 3, 8), (16, 5, 11)] {
+                    for b in [0u64, 2] {
+                        let w: Vec<u64> = frames.iter().scan(0, |acc, x| { *acc += *x; Some(*acc) }).collect();
+                        for c in [json!({"k": "multiframe", "cs": frames}), json!({"k": "wcurve", "w": w})] {
+                            let own = json!({"k": "rbf", "a": {"k": "periodic", "T": t_own}, "c": c});
+                            let hp = json!({"k": "rbf", "a": {"k": "sporadic", "T": t_hp, "J": b}, "c": {"k": "scalar", "c": c_hp}});
+                            if let (Some(o1), Some(o2)) = (demand_rec(&own, 244, wd), demand_rec(&hp, 244, wd)) {
+                                ctx.call("ros2_timer", tagged(json!({"op": "ros2_timer", "supply": sup, "lim": 120, "own": o1, "hp": o2, "B": b})), call_ros2);
+                            }
+                        }
+                    }
+                }
+            }
+        }
+    }
     for i in 0..n {
         if let Some(k) = &only {
             if !k.contains(&(i % 6)) {
